@@ -336,6 +336,12 @@ func MakePayload(seed uint64, actor string, op *Op) []byte {
 				binary.BigEndian.PutUint16(b[2:4], uint16((n-20)/4*4))
 			}
 		}
+	case "cookie0":
+		// the STUN magic cookie as the first four bytes of the payload: inside a ChannelData frame
+		// that is where a STUN header has it (bytes 4-8 of the datagram)
+		if n >= 4 {
+			binary.BigEndian.PutUint32(b[0:4], 0x2112A442)
+		}
 	case "chanlike":
 		if n >= 4 {
 			b[0] = 0x40 | (b[0] & 0x3F)
